@@ -305,6 +305,15 @@ func (o *optimizer) etaReduction() {
 			return false
 		}
 
+		// f(xs) and f(xs...) are different callings of a variadic func
+		if ret, ok := lit.Body.List[0].(*ast.ReturnStmt); ok && len(ret.Results) == 1 {
+			call, _ := ret.Results[0].(*ast.CallExpr)
+			variadic := sig.Variadic()
+			if call == nil || call.Ellipsis.IsValid() != variadic {
+				return false
+			}
+		}
+
 		litTy, funTy := ctx.TypeOf(lit), ctx.TypeOf(fun)
 		return litTy != nil && funTy != nil && types.Identical(litTy, funTy)
 	}
